@@ -893,6 +893,7 @@ def criteria_and_subclasses(ctx, rng, nprng, quick):
     off the main one (both triangles), rows, white rows; accounting; the stated scalar formulas."""
     from pyunicorn.timeseries import (RecurrencePlot, RecurrenceNetwork, JointRecurrencePlot,
                                       JointRecurrenceNetwork)
+    dreqs, dimpl = [], []
     for c in range(60 if quick else 500):
         n = rng.randrange(3, 14 if quick else 36)
         den = rng.choice([2, 4, 8])
@@ -967,6 +968,9 @@ def criteria_and_subclasses(ctx, rng, nprng, quick):
             expv = oracle_hist(rows(R, 1), N)
             expd = oracle_hist(lower_diags(R) + lower_diags(R.T), N)
         expw = oracle_hist(rows(R, 0), N)
+        if not mv:
+            dreqs.append(f"diagdist {N} {enc_mat(R)}")
+            dimpl.append(enc_vec(d))
         for nm, got, exp in (("diagline_dist", d, expd), ("vertline_dist", v, expv),
                              ("white_vertline_dist", w, expw)):
             if got != exp:
@@ -984,6 +988,9 @@ def criteria_and_subclasses(ctx, rng, nprng, quick):
                      "histograms do not account for every point exactly once", replay)
         for lmin in {1, 2, 3}:
             check_scalars(ctx, obj, N, expd, expv, expw, lmin, ts)
+    ctx.correspond("model diaglineDist (kernel + Python layer of diagline_dist) == diagline_dist() of "
+                   "objects built with every recurrence criterion (symmetric and asymmetric matrices)",
+                   dreqs, dimpl)
 
 
 class DrawProxy:
